@@ -81,7 +81,6 @@ Proof.
   { destruct (scan l1) as [n l2]. destruct (is_kind KNumber n); [|discriminate].
     destruct (line_tail l2) as [te r]. intros E. fin E. apply nnh_refl. }
   destruct (str_eqb (lit t) s_pragma); [|discriminate].
-  destruct (is_kind KHash (fst (scan l1))); [discriminate|].
   destruct (pragma_skip tb t l1) as [[te r]| |]; try discriminate.
   intros E. fin E. apply nnh_refl.
 Qed.
